@@ -19,7 +19,7 @@ from engine import symx
 from . import common, trav
 
 MENU_QUICK = [
-    "only=normal", "only=tutorial1", "no=tutorial2", "only=leaves..tutorial_gui", "only=minimal,normal",
+    "only=normal", "only=tutorial1", "only=minimal.quicktest", "no=tutorial2", "only=leaves..tutorial_gui", "only=minimal,normal",
     "only_vm1=Fedora", "no_vm2=Win7", "only_vm1=", "only_vm9=CentOS",
     "vms=vm1", "vms=vm2,vm3", "vms=vmX",
     "nets=net1,net2", "only_nets=cluster1", "no_nets=localhost",
@@ -116,7 +116,16 @@ def compare(args: list[str]) -> tuple[bool, str, str]:
     if kind == "ValueError":
         return False, "rejects valid arguments", f"arguments {args} are valid but were rejected: {got}"
     if kind == "Empty":
-        return True, "", "empty product (parser semantics, outside)"
+        # is the documented composition empty too? (the product itself is parser semantics)
+        from avocado_i2n import params_parser as param
+
+        control = param.Reparsable()
+        control.parse_next_batch(base_file="sets.cfg", ovrwrt_file=param.tests_ovrwrt_file(), ovrwrt_str=want["tests_str"], ovrwrt_dict=want["param_dict"])
+        try:
+            control.get_parser()
+        except param.EmptyCartesianProduct:
+            return True, "", "empty product for the documented composition as well"
+        return False, "rejects a valid selection as empty", f"arguments {args}: reported an empty selection, the documented composition {want['tests_str']!r} selects tests"
     for field in ("tests_str", "vm_strs", "param_dict", "vms"):
         if got[field] != want[field]:
             return False, f"wrong {field}", f"arguments {args}: {field} is {got[field]!r}, documented {want[field]!r}"
